@@ -1,0 +1,43 @@
+//go:build verif
+// +build verif
+
+package engine
+
+// Verification hook (build tag verif only; add-only).
+//
+// The in-memory engine picks its index structure from the package-level variable
+// useMemType, which no configuration can set (only the package's own tests do).
+// The default is the radix index. The setter below lets an external harness run
+// the same histories on the btree and skiplist variants as additional witnesses.
+// useMemType is consulted on every operation, so it must only be changed while no
+// mem engine is open.
+
+// VerifSetMemType selects the index used by mem engines opened afterwards
+// ("radix", "btree" or "skiplist") and returns the previous selection.
+// ok is false (and nothing changes) for an unknown name.
+func VerifSetMemType(name string) (prev string, ok bool) {
+	prev = VerifMemType()
+	switch name {
+	case "radix":
+		useMemType = memTypeRadix
+	case "btree":
+		useMemType = memTypeBtree
+	case "skiplist":
+		useMemType = memTypeSkiplist
+	default:
+		return prev, false
+	}
+	return prev, true
+}
+
+// VerifMemType reports the current selection.
+func VerifMemType() string {
+	switch useMemType {
+	case memTypeRadix:
+		return "radix"
+	case memTypeBtree:
+		return "btree"
+	default:
+		return "skiplist"
+	}
+}
